@@ -1067,3 +1067,127 @@ Proof.
   intros H Hperm _ Hi. injection H as <-. apply (transpose_inb (Some order) src i); [|assumption].
   simpl. now apply Hperm.
 Qed.
+
+(* ===================================================================== moveaxis: all arguments, dimension <= 5
+   The order moveaxis builds depends on the dimension and the axis lists only (not on the
+   extents), so for a bounded dimension the argument space is finite: it is swept by
+   computation over every pair of repetition-free axis lists, and negative spellings are
+   reduced to it by the normalisation lemma. *)
+
+Fixpoint inj_tuples (k : nat) (univ : list Z) : list (list Z) :=
+  match k with
+  | O => [[]]
+  | S k' => flat_map (fun t => map (fun x => x :: t) (filter (fun x => negb (existsb (Z.eqb x) t)) univ))
+                     (inj_tuples k' univ)
+  end.
+
+Lemma in_inj_tuples univ l : NoDup l -> (forall x, In x l -> In x univ) -> In l (inj_tuples (length l) univ).
+Proof.
+  induction l as [|x t IH]; intros Hn Hi; simpl; [now left|].
+  apply NoDup_cons_iff in Hn as [Hx Hn]. apply in_flat_map. exists t. split.
+  - apply IH; [assumption|]. intros y Hy. apply Hi. now right.
+  - apply in_map_iff. exists x. split; [reflexivity|]. apply filter_In. split; [apply Hi; now left|].
+    apply negb_true_iff. apply Bool.not_true_is_false. intros H. apply existsb_exists in H as [y [Hy E]].
+    apply Z.eqb_eq in E. subst. contradiction.
+Qed.
+
+Fixpoint list_eqb (a b : list Z) : bool :=
+  match a, b with
+  | [], [] => true
+  | x :: a', y :: b' => (x =? y) && list_eqb a' b'
+  | _, _ => false
+  end.
+Lemma list_eqb_eq a : forall b, list_eqb a b = true -> a = b.
+Proof.
+  induction a as [|x a IH]; intros [|y b]; simpl; intros H; try discriminate; [reflexivity|].
+  apply andb_prop in H as [H1 H2]. apply Z.eqb_eq in H1. subst. f_equal. now apply IH.
+Qed.
+
+Definition moveaxis_check_one (n : nat) (src dst : list Z) : bool :=
+  match moveaxis_to_transpose (Z.of_nat n) (AxList src) (AxList dst) with
+  | Some o => list_eqb o (np_moveaxis_order n (AxList src) (AxList dst)) && is_permb n o
+  | None => false
+  end.
+Definition moveaxis_check (n : nat) : bool :=
+  forallb (fun k => forallb (fun src => forallb (fun dst => moveaxis_check_one n src dst)
+                                               (inj_tuples k (zs n))) (inj_tuples k (zs n)))
+          (seq 0 (S n)).
+
+Lemma moveaxis_sweep : forallb moveaxis_check (seq 0 6) = true.
+Proof. vm_compute. reflexivity. Qed.
+
+Lemma moveaxis_upto5_nonneg n src dst : (n <= 5)%nat -> NoDup src -> NoDup dst -> length src = length dst ->
+  (forall x, In x src -> 0 <= x < Z.of_nat n) -> (forall x, In x dst -> 0 <= x < Z.of_nat n) ->
+  moveaxis_check_one n src dst = true.
+Proof.
+  intros Hn Hs Hd Hl Rs Rd. pose proof moveaxis_sweep as S. rewrite forallb_forall in S.
+  specialize (S n ltac:(apply in_seq; lia)). unfold moveaxis_check in S. rewrite forallb_forall in S.
+  assert (Hk : (length src <= n)%nat).
+  { pose proof (pigeonhole src 0 (Z.of_nat n) Hs Rs). lia. }
+  specialize (S (length src) ltac:(apply in_seq; lia)). rewrite forallb_forall in S.
+  assert (Is : In src (inj_tuples (length src) (zs n))) by (apply in_inj_tuples; [assumption | intros x Hx; apply in_zs; auto]).
+  specialize (S src Is). rewrite forallb_forall in S. apply S.
+  rewrite Hl. apply in_inj_tuples; [assumption | intros x Hx; apply in_zs; auto].
+Qed.
+
+Lemma norm_range N l : forallb (fun a => (- N <=? a) && (a <? N)) l = true ->
+  forall x, In x (map (norm_ax N) l) -> 0 <= x < N.
+Proof.
+  intros H x Hx. apply in_map_iff in Hx as [a [<- Ha]]. rewrite forallb_forall in H. specialize (H a Ha).
+  unfold norm_ax. destruct (Z.ltb_spec a 0); lia.
+Qed.
+
+Lemma normalize_axes_nonneg N l : (forall x, In x l -> 0 <= x < N) -> normalize_axes l N = Some l.
+Proof.
+  intros H. rewrite normalize_axes_ok.
+  - f_equal. apply norm_ax_id. intros x Hx. specialize (H x Hx). lia.
+  - apply forallb_forall. intros x Hx. specialize (H x Hx). lia.
+Qed.
+
+(* for every dimension up to 5 and every argument NumPy accepts (single axes or lists, negative
+   spellings included) moveaxis builds NumPy's axis order, and that order is a permutation *)
+Lemma moveaxis_upto5 n sa da : (n <= 5)%nat -> np_moveaxis_ok n sa da = true ->
+  moveaxis_to_transpose (Z.of_nat n) sa da = Some (np_moveaxis_order n sa da)
+  /\ is_permb n (np_moveaxis_order n sa da) = true.
+Proof.
+  intros Hn Hok. unfold np_moveaxis_ok in Hok. cbv zeta in Hok.
+  rewrite !andb_true_iff in Hok. destruct Hok as [[[[R1 R2] HL] N1] N2].
+  apply Nat.eqb_eq in HL. apply nodupb_NoDup in N1, N2.
+  set (N := Z.of_nat n) in *. set (src := map (norm_ax N) (axes_of sa)) in *. set (dst := map (norm_ax N) (axes_of da)) in *.
+  pose proof (norm_range N _ R1) as Rs. pose proof (norm_range N _ R2) as Rd. fold src in Rs. fold dst in Rd.
+  assert (E1 : moveaxis_to_transpose N sa da = moveaxis_to_transpose N (AxList src) (AxList dst)).
+  { unfold moveaxis_to_transpose. cbn [axes_of]. rewrite (normalize_axes_ok _ _ R1), (normalize_axes_ok _ _ R2).
+    fold src dst. now rewrite (normalize_axes_nonneg N src Rs), (normalize_axes_nonneg N dst Rd). }
+  assert (E2 : np_moveaxis_order n sa da = np_moveaxis_order n (AxList src) (AxList dst)).
+  { unfold np_moveaxis_order. cbv zeta. cbn [axes_of]. fold N. fold src dst.
+    rewrite (norm_ax_id N src), (norm_ax_id N dst); [reflexivity | |]; intros x Hx; [apply Rd in Hx | apply Rs in Hx]; lia. }
+  assert (Hl : length src = length dst) by (unfold src, dst; now rewrite !map_length).
+  pose proof (moveaxis_upto5_nonneg n src dst Hn N1 N2 Hl Rs Rd) as C. unfold moveaxis_check_one in C. fold N in C.
+  rewrite E1, E2. destruct (moveaxis_to_transpose N (AxList src) (AxList dst)) as [o|]; [|discriminate].
+  apply andb_prop in C as [C1 C2]. apply list_eqb_eq in C1. subst o. split; [reflexivity | assumption].
+Qed.
+
+(* hence, up to dimension 5, moveaxis is NumPy's transpose by that order at every index *)
+Lemma moveaxis_np_upto5 sa da s i : (length s <= 5)%nat -> np_moveaxis_ok (length s) sa da = true ->
+  inb i (np_transpose_shape s (Some (np_moveaxis_order (length s) sa da))) ->
+  moveaxis_accept sa da s = Some (np_transpose_shape s (Some (np_moveaxis_order (length s) sa da)))
+  /\ moveaxis_index sa da s i = np_transpose_index (Some (np_moveaxis_order (length s) sa da)) i
+  /\ inb (moveaxis_index sa da s i) s.
+Proof.
+  intros Hn Hok Hi. destruct (moveaxis_upto5 _ sa da Hn Hok) as [E P].
+  set (o := np_moveaxis_order (length s) sa da) in *.
+  assert (Hp : perm (length s) o) by now apply is_permb_perm.
+  assert (Hlo : length o = length s) by apply Hp.
+  assert (Hok' : np_transpose_ok (length s) (Some o) = true).
+  { simpl. unfold np_axes_ok. apply andb_true_iff. split.
+    - apply forallb_forall. intros a Ha. destruct Hp as [_ [Hr _]]. apply (In_nth _ _ 0) in Ha as [k [Hk <-]].
+      specialize (Hr k ltac:(lia)). lia.
+    - rewrite norm_ax_id; [assumption|]. intros a Ha. destruct Hp as [_ [Hr _]]. apply (In_nth _ _ 0) in Ha as [k [Hk <-]].
+      specialize (Hr k ltac:(lia)). lia. }
+  unfold moveaxis_accept, moveaxis_index, zlen. rewrite E.
+  rewrite <- (shape_transpose_np s (Some o) Hlo) in Hi |- *.
+  split; [reflexivity|]. pose proof (inb_length _ _ Hi) as Hli. simpl in Hli. rewrite map_length, seq_length in Hli.
+  split.
+  - apply (transpose_index_np (Some o) i). now rewrite Hli.
+  - exact (transpose_inb (Some o) s i Hok' Hi).
+Qed.
